@@ -180,4 +180,19 @@ CHECKS = {
         parts=[dict(pkg="./pkg/libs/io/backlog", harness=["backlog"], test="^TestVerif_C18$", race_test="^TestVerif_C18Race$", race=True, race_shards=4, shards=16,
                     gomaxprocs=1, budget=dict(quick=60, thorough=900))],
     ),
+    "C03": dict(
+        level="model_checking",
+        engine="stimx (synctest + seqx)",
+        technique="quiescence-stepped exploration of the real parser/sender/receiver goroutines inside a fake-clock bubble: every source stream up to a length x configuration, every environment schedule (segment delivery, 500 ms ticks, split segments) within a deviation bound, compared with a reference fold of the stream",
+        text="The real parseSourceCommand, sendTargetCommand and receiveTargetReply run on their own goroutines against a model Redis (real redigo client, in-memory "
+             "connections) inside a testing/synctest bubble. After each quiescence the explorer chooses the next environment event: deliver the next source command, "
+             "deliver it in two halves, or let 500 ms pass (flush ticker). All well-formed streams up to the bound over 17 symbols (SELECTs, single/multi-key writes, "
+             "non-idempotent INCR/RPUSH/APPEND, PING, MULTI/EXEC, sentinel hello, EVAL, OPINFO, keep-alive newline, mixed case) are crossed with the db/key/lua "
+             "filters, target.db, resume, sender count/size and start database. Oracle: the commands the model applied (minus the tool's own SELECT/PING/checkpoint "
+             "writes) equal, in order, argument for argument and database for database, a pure fold of the stream; no MULTI/EXEC reaches the target when resume is off; "
+             "everything is applied after 1.1 s of idleness; no abort.",
+        note="trusts testing/synctest (A1), mredis (A5), redigo (A2); asynctimerchan=0 (A3). The cascade between two stimuli runs under the real Go scheduler; it is required to be deterministic and replayed traces must agree. Target stalls are not modelled in this check.",
+        rule="execution = (stream, configuration, schedule); states = distinct executions; transitions = environment stimuli applied; non-trivial = the reference fold forwards at least one command",
+        parts=[dict(pkg="./redis-shake/dbSync", harness=["dbsync"], test="^TestVerif_C03$", shards=16, gomaxprocs=2, budget=dict(quick=75, thorough=1500))],
+    ),
 }
